@@ -93,9 +93,12 @@ fn pool() -> [Key; POOL] {
         Key::new(Char('b'), KeyMod::HYPER | KeyMod::META),
         Key::new(Enter, KeyMod::CAPSLOCK | KeyMod::NUMLOCK),
         Key::new(MouseLeft, KeyMod::EMPTY),
+        // upper-case twins of keys above (the decoders do produce them)
+        Key::new(Char('A'), KeyMod::EMPTY),
+        Key::new(Char('X'), KeyMod::CTRL),
     ]
 }
-const POOL: usize = 18;
+const POOL: usize = 20;
 
 fn keys_of(chord: &[u8], pool: &[Key; POOL]) -> Vec<Key> {
     chord.iter().map(|k| pool[*k as usize % POOL]).collect()
